@@ -319,6 +319,21 @@ def origins(du: DefUse, n: Node, e: ast.AST, path=(), _seen=None, depth: int = 0
         out: List[Origin] = []
         defs = du.reaching(n, e.id)
         if not defs:
+            # a comprehension variable ranging over a display of locals: `f(v) for v in (old_etag, new_etag)`
+            for top in n.exprs():
+                for c in ast.walk(top):
+                    if isinstance(c, (ast.GeneratorExp, ast.ListComp, ast.SetComp, ast.DictComp)):
+                        for g in c.generators:
+                            if isinstance(g.target, ast.Name) and g.target.id == e.id and isinstance(g.iter, (ast.Tuple, ast.List)) \
+                                    and not any(isinstance(x, ast.Starred) for x in g.iter.elts) and any(y is e for y in ast.walk(c)):
+                                key = (id(g), path)
+                                if key in _seen:
+                                    return []
+                                _seen.add(key)
+                                out2: List[Origin] = []
+                                for elt in g.iter.elts:
+                                    out2.extend(origins(du, n, elt, path, _seen, depth + 1))
+                                return out2
             return [Origin("expr", e, path, n)]
         for d in defs:
             key = (id(d), path)
